@@ -409,6 +409,10 @@ def _find_range(self, within, start_pattern, end_pattern, nth=0, exclusive=False
                 break
         elif t == ";":
             break
+        elif t == "}":
+            # an unmatched `}`: the end pattern is in the tail expression of the enclosing block, which ends before it
+            q -= 1
+            break
         q += 1
     return Item(self, "block", within.name + ":" + start_pattern + " .. " + end_pattern, self.toks[a].start, self.toks[q].end)
 
